@@ -2891,10 +2891,12 @@ class Const(Subconstruct):
         return f"parse_const({self.subcon._compileparse(code)}, {repr(self.value)})"
 
     def _emitbuild(self, code):
-        if isinstance(self.value, bytes):
-            return f"(io.write({repr(self.value)}), {repr(self.value)})[1]"
-        else:
-            return f"reuse({repr(self.value)}, lambda obj: {self.subcon._compilebuild(code)})"
+        code.append(f"""
+            def build_const(obj, expected):
+                if obj is not None and not obj == expected: raise ConstError
+                return expected
+        """)
+        return f"reuse(build_const(obj, {repr(self.value)}), lambda obj: {self.subcon._compilebuild(code)})"
 
     def _emitfulltype(self, ksy, bitwise):
         data = self.subcon.build(self.value)
